@@ -303,6 +303,8 @@ class Writer:
             return self.ident(a) + '.' + self.ident(b)
         if t.kind == 'array':
             return self.ident(t.text[:-2]) + '[]'
+        if t.kind == 'qarray':       # an array of a type that needs quotes: "varchar(255)"[]
+            return f'"{t.text[:-2]}"[]'
         if t.kind == 'args':
             base, _, rest = t.text.partition('(')
             return self.ident(base) + '(' + rest
